@@ -7,6 +7,9 @@ package scen
 import (
 	"fmt"
 	"reflect"
+	"strings"
+
+	z "github.com/Oudwins/zog"
 
 	"zogverif/mc"
 	"zogverif/zh"
@@ -144,7 +147,7 @@ func contains(s, sub string) bool {
 func init() {
 	Register(&Prop{
 		ID:    "C01",
-		Rule:  "same enumeration as C02 (skeleton, mode, ≤k focus units over full alphabets, all field visit orders); non-trivial = a deviating case on which the call returned no issues (the oracle walks the destination); distinct = distinct (skeleton, mode, schema configuration) among those. plus " + callsRule + " (C01 reports the sequences in which a call came back without issues although the same call made alone reports a violation). plus " + layoutRule + " (C01 reports runs with fewer issues than the fresh schema)",
+		Rule:  "same enumeration as C02 (skeleton, mode, ≤k focus units over full alphabets, all field visit orders); non-trivial = a deviating case on which the call returned no issues (the oracle walks the destination); distinct = distinct (skeleton, mode, schema configuration) among those. plus " + callsRule + " (C01 reports the sequences in which a call came back without issues although the same call made alone reports a violation). plus " + layoutRule + " (C01 reports runs with fewer issues than the fresh schema). plus built-in string tests (Email, URL, Contains, HasSuffix, Len, Max, Min; plain and negated) on mail addresses, URLs and repeated letters of 63..70000 bytes at top level, as field and as element in both modes: no issue ⇒ the destination value satisfies the test",
 		Floor: 50,
 		Bound: func(tier string) string {
 			k, e := coreK(tier)
@@ -159,7 +162,135 @@ func init() {
 			// "...or an earlier call": call sequences and overlapping (re-entrant) executions
 			items = append(items, callsItems(tier, "C01", "clean-despite-violation", "panic")...)
 			// "...or an earlier call" on the same schema object with another destination type
-			return append(items, layoutItems(tier, "C01", "issues-missing", "panic")...)
+			items = append(items, layoutItems(tier, "C01", "issues-missing", "panic")...)
+			return append(items, Item{Name: "builtin-tests-on-long-values", MaxDevs: -1, Run: c01BuiltinLongScenario})
 		},
 	})
+}
+
+// ---------------------------------------------------------------------------
+// Built-in tests (plain and negated) on values of unusual length, at three depths: when the call reports no issue
+// the value in the destination satisfies the declared test (reference predicates of C20; one direction only).
+
+type c01Long struct {
+	V string
+}
+
+func c01BuiltinLongScenario(x *mc.X) *mc.Outcome {
+	zh.Reset()
+	zh.Install(x, zh.PoolLIFO, zh.OrderSorted)
+	type bt struct {
+		name  string
+		build func(not bool) *z.StringSchema[string]
+		pred  func(v string) bool
+		noNot bool
+	}
+	tests := []bt{
+		{"Email", func(not bool) *z.StringSchema[string] {
+			if not {
+				return z.String().Not().Email()
+			}
+			return z.String().Email()
+		}, refEmail, false},
+		{"URL", func(not bool) *z.StringSchema[string] {
+			if not {
+				return z.String().Not().URL()
+			}
+			return z.String().URL()
+		}, refURL, false},
+		{"Contains(@)", func(not bool) *z.StringSchema[string] {
+			if not {
+				return z.String().Not().Contains("@")
+			}
+			return z.String().Contains("@")
+		}, func(v string) bool { return strings.Contains(v, "@") }, false},
+		{"HasSuffix(.com)", func(not bool) *z.StringSchema[string] {
+			if not {
+				return z.String().Not().HasSuffix(".com")
+			}
+			return z.String().HasSuffix(".com")
+		}, func(v string) bool { return strings.HasSuffix(v, ".com") }, false},
+		{"Len(256)", func(not bool) *z.StringSchema[string] {
+			if not {
+				return z.String().Not().Len(256)
+			}
+			return z.String().Len(256)
+		}, func(v string) bool { return len(v) == 256 }, false},
+		{"Max(254)", func(not bool) *z.StringSchema[string] { return z.String().Max(254) }, func(v string) bool { return len(v) <= 254 }, true},
+		{"Min(255)", func(not bool) *z.StringSchema[string] { return z.String().Min(255) }, func(v string) bool { return len(v) >= 255 }, true},
+	}
+	t := tests[x.Choose(len(tests), "test")]
+	not := !t.noNot && x.Bool("not")
+	total := []int{63, 64, 65, 253, 254, 255, 256, 257, 320, 1024, 70000}[x.Choose(11, "totalLen")]
+	shape := x.Choose(3, "shape") // 0 mail address, 1 URL, 2 one repeated letter
+	var subj string
+	switch shape {
+	case 0:
+		dom := "@" + strings.Repeat("d", 20) + "." + strings.Repeat("e", 20) + ".com"
+		subj = strings.Repeat("a", total-len(dom)) + dom
+	case 1:
+		pre := "https://example.com/"
+		subj = pre + strings.Repeat("p", total-len(pre))
+	default:
+		subj = strings.Repeat("a", total)
+	}
+	place := x.Choose(3, "placement")
+	mode := x.Choose(2, "mode")
+	s := t.build(not)
+	var nIssues int
+	var dest string
+	switch place {
+	case 0:
+		if mode == 0 {
+			nIssues = len(s.Parse(subj, &dest))
+		} else {
+			dest = subj
+			nIssues = len(s.Validate(&dest))
+		}
+	case 1:
+		var d c01Long
+		if mode == 0 {
+			nIssues = len(z.Struct(z.Schema{"v": s}).Parse(map[string]any{"v": subj}, &d))
+		} else {
+			d.V = subj
+			nIssues = len(z.Struct(z.Schema{"v": s}).Validate(&d))
+		}
+		dest = d.V
+	case 2:
+		var d []string
+		if mode == 0 {
+			nIssues = len(z.Slice(s).Parse([]any{"x@y.com", subj}, &d))
+		} else {
+			d = []string{"x@y.com", subj}
+			nIssues = len(z.Slice(s).Validate(&d))
+		}
+		if len(d) == 2 {
+			dest = d[1]
+		}
+		// the first element must satisfy the test too for "no issues" to say anything about the second
+		ok0 := t.pred("x@y.com")
+		if not {
+			ok0 = !ok0
+		}
+		if !ok0 {
+			zh.Reset()
+			return &mc.Outcome{Sig: "n/a"}
+		}
+	}
+	zh.Reset()
+	holds := t.pred(dest)
+	if not {
+		holds = !holds
+	}
+	name := t.name
+	if not {
+		name = "Not()." + name
+	}
+	out := &mc.Outcome{Traces: 1, Nontrivial: nIssues == 0, Sig: fmt.Sprintf("long|%s|%d|%d|%d|%v", name, shape, place, mode, nIssues == 0)}
+	out.Sample = map[string]any{"test": name, "value_length": len(subj), "shape": shape, "placement": place, "issues": nIssues}
+	if nIssues == 0 && !holds {
+		x.Note("test %s, value of %d bytes (shape %d: 0 mail address, 1 URL, 2 repeated letter), placement %d (0 top, 1 field, 2 element), mode %d", name, len(subj), shape, place, mode)
+		out.Viol = append(out.Viol, &mc.Violation{Key: "C01:builtin-long-value:" + name, What: "no issue was reported although the value in the destination does not satisfy the declared built-in test", Expected: "an issue, or a value for which the test holds", Observed: fmt.Sprintf("no issues; value of %d bytes beginning %q", len(dest), clip(dest))})
+	}
+	return out
 }
